@@ -35,14 +35,17 @@ class C16Gen:
             k = 3
         fmt = cfg.get("out_fmt", cfg["fmt"])
         opts = cfg.get("opts") or {}
+        via = "method" if cfg.get("via_method") else None
+        if cfg.get("unnamed_netlist") and fmt != "edf":
+            ev.append({"op": "del_name", "on": self.net})   # only the EDIF writer needs (and defaults) a netlist name
         if cfg.get("write_error_at"):
             ev.append({"op": "fs_config", "write_error_at": cfg["write_error_at"]})
-        ev.append({"op": "compose", "on": self.net, "path": "sim://out1." + fmt, "opts": opts, "tag": "first"})
+        ev.append({"op": "compose", "on": self.net, "path": "sim://out1." + fmt, "opts": opts, "tag": "first", "via": via})
         if cfg.get("write_error_at"):
             ev.append({"op": "fs_config", "write_error_at": 0})
         for q in cfg["between"]:
             ev.append(dict(q, on=self.net) if q["op"] == "query" else dict(q))
-        ev.append({"op": "compose", "on": self.net, "path": "sim://out2." + fmt, "opts": opts, "tag": "second"})
+        ev.append({"op": "compose", "on": self.net, "path": "sim://out2." + fmt, "opts": opts, "tag": "second", "via": via})
         self.script = ScriptGen(ev)
 
     def next(self):
@@ -104,6 +107,8 @@ class C16(Prop):
             if r.random() < 0.5:
                 opts["write_eblif_cname"] = r.choice([True, False])
         cfg["opts"] = opts
+        cfg["via_method"] = r.random() < 0.3
+        cfg["unnamed_netlist"] = r.random() < 0.3
         between = []
         for _ in range(r.choice([0, 0, 2, 5, 10])):
             x = r.random()
